@@ -83,6 +83,21 @@ def make_eigh_handler(eigen_equation=True, ascending=True, block=None, tag="S", 
         npatch.tag_inverse(S, S1)
         return S, S1
 
+    def make_block_S(n, t, groups):
+        """orthogonal matrix that is an arbitrary rotation (times signs) inside each index group
+        and zero between groups"""
+        S = givens_orthogonal(n, t, signs=True, block=groups)
+        if unitary:
+            for i in range(n):
+                u = core.cplx("%s.u%d" % (t, i))
+                ENGINE.assume(u.re * u.re + u.im * u.im == 1)
+                S[:, i] = S[:, i] * u
+            S1 = numpy.conj(S.T)
+        else:
+            S1 = S.T.copy()
+        npatch.tag_inverse(S, S1)
+        return S, S1
+
     def register(A, w, S, S1):
         npatch.tag_inverse(S, S1)
         registry.append((A.copy(), w, S, S1, numpy.dot(S1, numpy.dot(A, S))))
@@ -102,17 +117,21 @@ def make_eigh_handler(eigen_equation=True, ascending=True, block=None, tag="S", 
         for k0, (A0, w0, S0, S10, B0) in enumerate(registry):
             if B0 is not None and (_same_array(A, B0) or
                                    (k0 in handler.diag_of and _same_array(A, handler.diag_of[k0]))):
-                S, S1 = fresh_S(n, t)
-                for i in range(n):
-                    for j in range(n):
-                        if i != j:
-                            sij = lift(S[i, j])
-                            d = w0[i] - w0[j]
-                            for comp in (sij.re, sij.im):
-                                if not (core.isconc(comp) and comp == 0):
-                                    ENGINE.assume(core.z(d.re) * core.z(comp) == 0,
-                                                  "eigh stub on an already diagonalised input S^-1 A S: same "
-                                                  "eigenvalues, eigenvectors commute with diag(w)")
+                # case split (path manager) on the degeneracy pattern of neighbouring eigenvalues:
+                # distinct eigenvalues force the new eigenvectors to be +-unit vectors; equal
+                # ones allow any rotation inside the degenerate subspace
+                blk_of = {}
+                for bi, blk in enumerate(block if block is not None else [list(range(n))]):
+                    for i in blk:
+                        blk_of[i] = bi
+                groups = [[0]]
+                for i in range(1, n):
+                    # exactly decoupled blocks are not mixed by the eigen-solver (stated assumption)
+                    if blk_of[i - 1] == blk_of[i] and bool(w0[i - 1] == w0[i]):
+                        groups[-1].append(i)
+                    else:
+                        groups.append([i])
+                S, S1 = make_block_S(n, t, groups)
                 if eigen_equation and k0 not in handler.diag_of:
                     # entailed lemma: the input is diag(w)
                     for idx in numpy.ndindex(n, n):
